@@ -1,5 +1,6 @@
 import CobraModel.Lemmas.Core
 import CobraModel.Lemmas.GPR
+import CobraModel.Lemmas.KnockOuts
 /-!
 # C07 — knock-outs disable exactly the reactions whose rule becomes false
 -/
@@ -46,6 +47,44 @@ theorem knock_outs_recorded (y : Sys) (g : Good y.s) (gs : List Id) (hall : ∀ 
 /-- more knock-outs never switch a reaction back on (rule evaluation is monotone) -/
 theorem more_knockouts_monotone (ko ko' : String → Bool) (h : ∀ s, ko s = true → ko' s = true) (g : G)
     (h' : eval ko' g = true) : eval ko g = true := eval_mono ko ko' h g h'
+
+/-- **any set of genes, one at a time in any order** — the closed form: the knocked-out genes are non-functional; a reaction has both bounds zero
+exactly when one of them is one of its genes and its rule is false with all non-functional genes absent; every other reaction keeps its bounds;
+`reaction.functional` agrees with the rule -/
+theorem knock_out_set (gs : List Id) (y : Sys) (gd : Good y.s) (hall : ∀ g ∈ gs, y.s.hasG g = true) :
+    (koGenes gs y).s.gf = gfAfter y.s.gf gs ∧
+    (∀ r, y.s.hasR r = true →
+      ((koGenes gs y).s.lb r, (koGenes gs y).s.ub r) =
+        if (∃ g ∈ gs, y.s.gr g r = true) ∧ functional (withGf y.s (gfAfter y.s.gf gs)) r = false then (EB.zero, EB.zero)
+        else (y.s.lb r, y.s.ub r)) ∧
+    (∀ r, functional (koGenes gs y).s r = functional (withGf y.s (gfAfter y.s.gf gs)) r) :=
+  koGenes_closed_form gs y gd hall
+
+/-- hence the order of the knock-outs does not matter: two orders of the same genes give the same gene states, bounds and `functional` -/
+theorem knock_out_order_independent (gs gs' : List Id) (hp : gs.Perm gs') (y : Sys) (gd : Good y.s) (hall : ∀ g ∈ gs, y.s.hasG g = true) :
+    (koGenes gs y).s.gf = (koGenes gs' y).s.gf ∧
+    (∀ r, y.s.hasR r = true → (koGenes gs y).s.lb r = (koGenes gs' y).s.lb r ∧ (koGenes gs y).s.ub r = (koGenes gs' y).s.ub r) := by
+  have hall' : ∀ g ∈ gs', y.s.hasG g = true := fun g hg => hall g (hp.symm.subset hg)
+  obtain ⟨a1, a2, _⟩ := koGenes_closed_form gs y gd hall
+  obtain ⟨b1, b2, _⟩ := koGenes_closed_form gs' y gd hall'
+  have hgf : gfAfter y.s.gf gs = gfAfter y.s.gf gs' := by
+    funext x
+    simp only [gfAfter]
+    have : gs.contains x = gs'.contains x := by
+      cases h1 : gs.contains x <;> cases h2 : gs'.contains x <;> simp_all
+      · exact absurd (hp.symm.subset h2) h1
+      · exact absurd (hp.subset h1) h2
+    rw [this]
+  refine ⟨by rw [a1, b1, hgf], ?_⟩
+  intro r hr
+  have ha := a2 r hr
+  have hb := b2 r hr
+  have hex : (∃ g ∈ gs, y.s.gr g r = true) ↔ (∃ g ∈ gs', y.s.gr g r = true) :=
+    ⟨fun ⟨g, hg, h⟩ => ⟨g, hp.subset hg, h⟩, fun ⟨g, hg, h⟩ => ⟨g, hp.symm.subset hg, h⟩⟩
+  rw [hgf] at ha
+  simp only [hex] at ha
+  rw [← hb] at ha
+  exact ⟨congrArg Prod.fst ha, congrArg Prod.snd ha⟩
 
 
 example : Core.WF demo ∧ demo.hasG "g1" = true := ⟨demo_good.wf, by decide⟩
